@@ -213,9 +213,9 @@ pub fn judge(c: &Cmd, p: &Probe) -> Judge {
         s.framing = if r.body.len() % 2 == 0 { Framing::ContentLength } else { Framing::Chunked(vec![9, 30]) };
         s
     });
-    let server = Server::start(handler, None).map_err(|e| Fail::new("infra/server", format!("{e}")))?;
+    let server = thread_server(handler).map_err(|e| Fail::new("infra/server", format!("{e}")))?;
     if let Some(x) = c.abort_upload {
-        server.abort_uploads.lock().unwrap().push((0, 100 + c.doc.len() * x as usize / 256));
+        server.abort_uploads.lock().unwrap().push((server.conn_count(), 100 + c.doc.len() * x as usize / 256));
         p.label("printer resets the connection in the middle of the upload");
     }
     let uri = format!("{}://127.0.0.1:{}{}", if c.scheme_ipp { "ipp" } else { "http" }, server.port, c.path);
